@@ -346,6 +346,7 @@ def run_twin(sc):
         "refused_at": job.refused_at,
         "decisions": dict(job.decisions),
         "total_ops": job.fs.total_ops,
+        "op_kinds": [k for k, _ in job.fs.oplog],
         "violations": res.violations,
         "stats": res.stats,
         "steps": res.steps,
@@ -416,8 +417,13 @@ def concrete_cases(base, tier):
     if plan == "enumerate":
         for k in range(K + 1):
             yield dict(base, faults=[{"kind": "crash", "at": k}])
-        for _ in range(min(K, 24) if tier == "thorough" else min(K, 6)):
-            yield dict(base, faults=[{"kind": "ioerr", "at": rng.randrange(K + 1)}])
+        # a full disk makes create / write / mkdir fail (renames and removes still succeed): every such
+        # call is an io-error point; the many write() calls of an unbuffered torch.save are thinned out
+        points = [i for i, k in enumerate(tw.get("op_kinds", [])) if k in ("create", "write", "mkdir")]
+        if len(points) > 60:
+            points = sorted(rng.sample(points, 60))
+        for k in points:
+            yield dict(base, faults=[{"kind": "ioerr", "at": k}])
         n2 = (3 * K if tier == "thorough" else K // 2)
         for _ in range(n2):
             k1 = rng.randrange(K + 1)
@@ -507,7 +513,7 @@ def sample_repr(sc):
     }
 
 
-BUDGET = {"quick": 700, "thorough": 3000}
+BUDGET = {"quick": 500, "thorough": 3000}
 CHUNK = 8  # a base scenario expands into hundreds of fault plans
 WALL_CAP = {"quick": 240, "thorough": 3000}
 RULE = (
